@@ -10,7 +10,7 @@
 (***************************************************************************)
 EXTENDS CoSsdo, TLC, Json, SequencesExt
 CONSTANTS Dict,        \* the dictionary: Seq of objects (records with the harness fields too)
-          NodeId, Scens, Part, NParts
+          NodeId, Scens, Part, NParts, PreObj
 VARIABLE dummy
 
 RxId == 1536 + NodeId
@@ -138,23 +138,41 @@ RunScen(sc, s, d) ==
        ELSE IF sc.mode = "seg" THEN DlSeg(s, d, sc.p, P, sc.sbit)
        ELSE DlBlk(s, d, sc.p, P, sc.sbit, sc.loss)
   ELSE IF sc.mode = "seg" THEN UlSeg(s, d, sc.p) ELSE UlBlk(s, d, sc.p, sc.bs, sc.plan)
+\* prelude: a transfer the client gave up without its abort reaching the server (conforming: the abort
+\* service is unconfirmed); sc.pre = 0 none, 1 a segmented download of object PreObj left after one segment,
+\* 2 a segmented upload of PreObj left after one segment
+PreSteps(sc) ==
+  IF sc.pre = 0 THEN [steps |-> <<>>, s |-> Idle, d |-> Dict]
+  ELSE IF sc.pre = 1
+  THEN LET f1 == <<33>> \o Mux(Dict[PreObj]) \o LE(Len(Dict[PreObj].data), 3) \o <<0>>
+           r1 == Step(Idle, Dict, f1)
+           f2 == <<0>> \o Pat(99, 7)
+           r2 == Step(r1.s, r1.d, f2)
+       IN [steps |-> <<Rx(f1, r1), Rx(f2, r2)>>, s |-> r2.s, d |-> r2.d]
+  ELSE LET f1 == <<64>> \o Mux(Dict[PreObj]) \o <<0, 0, 0, 0>>
+           r1 == Step(Idle, Dict, f1)
+           f2 == <<96, 0, 0, 0, 0, 0, 0, 0>>
+           r2 == Step(r1.s, r1.d, f2)
+       IN [steps |-> <<Rx(f1, r1), Rx(f2, r2)>>, s |-> r2.s, d |-> r2.d]
 \* the property on the model: a confirmed download leaves payload ++ old tail; an upload assembles the object
 ScenOK(sc, r) ==
   /\ r.ok
   /\ r.s = Idle
-  /\ sc.t = "dl" => /\ r.d[sc.p].data = Pat(sc.seed, sc.L) \o Drop(Dict[sc.p].data, sc.L)
-                    /\ \A q \in 1..Len(Dict) : q # sc.p => r.d[q] = Dict[q]
-  /\ sc.t = "ul" => r.data = Dict[sc.p].data /\ r.d = Dict
+  /\ sc.t = "dl" => /\ Take(r.d[sc.p].data, sc.L) = Pat(sc.seed, sc.L)
+                    /\ ((sc.pre # 1 \/ sc.p # PreObj) => r.d[sc.p].data = Pat(sc.seed, sc.L) \o Drop(Dict[sc.p].data, sc.L))
+                    /\ \A q \in 1..Len(Dict) : (q # sc.p /\ (sc.pre # 1 \/ q # PreObj)) => r.d[q] = Dict[q]
+  /\ (sc.t = "ul" /\ (sc.pre # 1 \/ sc.p # PreObj)) => (r.data = Dict[sc.p].data /\ \A q \in 1..Len(Dict) : (sc.pre # 1 \/ q # PreObj) => r.d[q] = Dict[q])
 \* emitted behaviour: the dialogue, a dump of the target, then the same object uploaded segmented
 \* (probe: what a later client sees)
 Beh(sc, r) ==
   LET u == UlSeg(r.s, r.d, sc.p)
-  IN [c |-> [n |-> NodeId, k |-> SegMax], h |-> r.steps \o <<DumpStep(r.d, sc.p)>> \o (IF Dict[sc.p].r THEN u.steps ELSE <<>>)]
+  IN [c |-> [n |-> NodeId, k |-> SegMax], h |-> PreSteps(sc).steps \o r.steps \o <<DumpStep(r.d, sc.p)>> \o (IF Dict[sc.p].r THEN u.steps ELSE <<>>)]
 ScenSeq == SetToSeq(Scens)
 \* the scenario set is split over NParts parallel TLC runs
 ASSUME \A i \in 1..Len(ScenSeq) : (i % NParts = Part) =>
           LET sc == ScenSeq[i]
-              r == RunScen(sc, Idle, Dict)
+              pr == PreSteps(sc)
+              r == RunScen(sc, pr.s, pr.d)
           IN /\ ScenOK(sc, r) \/ (PrintT(<<"SCENARIO FAILS IN THE MODEL", sc>>) /\ FALSE)
              /\ PrintT(<<"BEH", ToJson(Beh(sc, r))>>)
 Init == dummy = 0
